@@ -31,9 +31,10 @@ def _s(x):
     return x.strip() if isinstance(x, str) else x
 
 
-def project(b, raw=False):
-    """Block -> JSON-able projection (kind, type, key, fields, content), whitespace-trimmed."""
+def project(b, raw=False, exact=False):
+    """Block -> JSON-able projection (kind, type, key, fields, content), whitespace-trimmed unless `exact`."""
     k = block_kind(b)
+    _s = (lambda x: x) if exact else globals()["_s"]
     if k == "entry":
         # keys are compared exactly (a KEY token has no surrounding whitespace); values up to whitespace
         p = ["entry", b.entry_type, b.key, [[f.key, _s(f.value)] for f in b.fields]]
@@ -50,8 +51,8 @@ def project(b, raw=False):
     return p
 
 
-def project_lib(lib, raw=False):
-    return [project(b, raw) for b in lib.blocks]
+def project_lib(lib, raw=False, exact=False):
+    return [project(b, raw, exact) for b in lib.blocks]
 
 
 def strip_truth(truth):
